@@ -1,6 +1,8 @@
 package main
 
 import (
+	"go/types"
+	"sort"
 	"strings"
 
 	"golang.org/x/tools/go/ssa"
@@ -92,6 +94,22 @@ func runC15(c *Ctx) {
 	}
 	decoded := strip(jcall.Call.Args[1])
 	decExpr := w.Expr(decoded)
+	// every decode starts from a value of its own: the object json decodes into does not share reference-typed
+	// state (a pointer / map / slice inside a package-level template) with other decodes - encoding/json decodes
+	// into existing pointers and maps in place, so shared state makes one message's fields leak into the next
+	{
+		w.Focus(unmarshal)
+		var shared []string
+		for o := range w.Origins(decoded) {
+			if strings.HasPrefix(o, "global:"+RepoMod) {
+				if g := w.globalByRoot(o); g != nil && hasReferenceParts(g.Type().(*types.Pointer).Elem(), 0) {
+					shared = append(shared, shortName(o))
+				}
+			}
+		}
+		sort.Strings(shared)
+		c.Check(len(shared) == 0, "R2.gate", "Unmarshal|decodes into a fresh value", w.Pos(jcall.Pos()), "the decode target has no reference-typed state shared through a package-level variable", "the JSON decode target aliases package-level state ("+strings.Join(shared, ", ")+"): fields decoded for one message persist into the next (absent keys no longer come back zero)")
+	}
 	if lcall != nil {
 		isNil, known := f.KnownNil(lcall.Block(), jcall)
 		c.Check(known && !isNil, "R2.gate", "Unmarshal|legacy only after JSON failed", w.Pos(lcall.Pos()), "must-fact json.Unmarshal err != nil", "text that decodes as JSON can be reinterpreted as legacy text")
